@@ -35,16 +35,20 @@ STATUS.  Proved, for all inputs, the two media paths end to end and the transpor
 
 Schedule.  The workflow is request/response, so the only freedom a schedule has is how each direction's
 bytes are cut into calls and when acknowledgements are sent.  The theorems deliver each hop's bytes in
-one `drain`; `C15_server_session` / `C15_client_session` extend each hop to ANY partition; `drain` is
-`handle_input` minus the acknowledgement step (`C15_*_input_is_drain`), and acknowledgements are a
-function of the call sizes (C17) that raise only acknowledgement events at the peer.  NOT a theorem:
-the workflow with acknowledgement packets interleaved (the peer's handling of an Ack is a no-op on
-every field the workflow reads, but the composition is not stated).  Metadata items: `C02_publish_metadata_item`,
+one `drain`; `C15_server_session_partition` / `C15_client_session_partition` extend each successful hop to
+ANY partition into any number of calls; `drain` is `handle_input` minus the acknowledgement step:
+`C02_server_input_hop` / `C02_client_input_hop` are the hop lemmas for `handle_input` itself — an
+acknowledgement that is due (C17 says when) is sent first, changes only the receiver's serializer and
+is the first result; delivered to the peer it raises only its own event and changes nothing
+(`C02_ack_changes_nothing`).  NOT a theorem: the workflow theorems restated with those acknowledgement
+packets threaded through every hop (each hop lemma is there; the bookkeeping of the composition is not).  Metadata items: `C02_publish_metadata_item`,
 `C02_play_metadata_item` — exactly one metadata event carrying the sender's metadata, for every metadata
 the Rust type can hold except a frame rate that is a signalling NaN (which `as f64 as f32` quiets, as the
 hardware does): `C02_metadata_trip`, through `F64.toU32_ofU32` and `F64.toF32_ofF32`.  The model fixes one
-enumeration order for each AMF0 object the sessions build; the real `HashMap` order is arbitrary and
-every reader looks properties up by name (C04 holds for every order).  The composition is also decided
+enumeration order for each AMF0 object the sessions build; the real `HashMap` order is arbitrary; the
+readers of command and status objects look properties up by name, which gives the same answer in every
+permutation (`C02_lookup_any_order`, `C02_connect_any_order`; C04 holds for every order); the metadata
+reader folds over the map and its order independence is checked by correspondence only.  The composition is also decided
 on the implementation by the `interop` family: real ClientSession ↔ real ServerSession under seeded
 random fragmentation, interleaving and configurations.
 -/
@@ -54,6 +58,8 @@ import Rml.Lemmas.Interop
 import Rml.Props.C15
 import Rml.Lemmas.Workflow
 import Rml.Lemmas.WfMeta
+import Rml.Lemmas.AckHop
+import Rml.Lemmas.Order
 namespace Rml.C02
 open Rml Rml.Chunk Rml.Amf0 Rml.Msgs Rml.Sess
 
@@ -349,5 +355,51 @@ example : MetaWF' { videoWidth := some 1920, videoFrameRate := some 0x41F00000, 
   · omega
   · subst h; exact ⟨by decide, Or.inl (by decide)⟩
   · subst h; decide
+
+/-! ### acknowledgements, enumeration order -/
+
+/-- one hop through the real entry point, server receiving (statement: Lemmas/AckHop.lean) -/
+theorem C02_server_input_hop {ser ser' : Ser.State} {v : Srv.State} {xs : List (Ser.Packet × Msg)} (now : Nat)
+    (hl : Link.Linked ser v.des) (he : Emit.Emits ser ser' xs) :
+    (∀ since', ackStep v.window v.since (SerHist.wire xs).length = (since', none) →
+      ∀ sF rs, SrvSteps.steps { v with since := since' } now (SerHist.msgs xs) = .ok (sF, rs) →
+      ∃ core', Srv.handleInput v now (SerHist.wire xs) = ({ sF with des := { core := core', buf := [] } }, .ok rs) ∧
+        Link.Linked ser' { core := core', buf := [] }) ∧
+    (∀ since' n, ackStep v.window v.since (SerHist.wire xs).length = (since', some n) →
+      ∀ v1 p sF rs, Srv.send v (.ack n) (epoch now) 0 = .ok (v1, p) →
+      SrvSteps.steps { v1 with since := since' } now (SerHist.msgs xs) = .ok (sF, rs) →
+      ∃ core', Srv.handleInput v now (SerHist.wire xs) = ({ sF with des := { core := core', buf := [] } }, .ok (.out p :: rs)) ∧
+        Link.Linked ser' { core := core', buf := [] } ∧ Emit.Emits v.ser v1.ser [(p, AckHop.ackMsg n now)]) :=
+  AckHop.srv_input_hop now hl he
+
+theorem C02_client_input_hop {ser ser' : Ser.State} {c : Cli.State} {xs : List (Ser.Packet × Msg)} (now : Nat)
+    (hl : Link.Linked ser c.des) (he : Emit.Emits ser ser' xs) :
+    (∀ since', ackStep c.window c.since (SerHist.wire xs).length = (since', none) →
+      ∀ sF rs, CliSteps.steps { c with since := since' } now (SerHist.msgs xs) = .ok (sF, rs) →
+      ∃ core', Cli.handleInput c now (SerHist.wire xs) = ({ sF with des := { core := core', buf := [] } }, .ok rs) ∧
+        Link.Linked ser' { core := core', buf := [] }) ∧
+    (∀ since' n, ackStep c.window c.since (SerHist.wire xs).length = (since', some n) →
+      ∀ c1 p sF rs, Cli.send c (.ack n) (epoch now) 0 = .ok (c1, p) →
+      CliSteps.steps { c1 with since := since' } now (SerHist.msgs xs) = .ok (sF, rs) →
+      ∃ core', Cli.handleInput c now (SerHist.wire xs) = ({ sF with des := { core := core', buf := [] } }, .ok (.out p :: rs)) ∧
+        Link.Linked ser' { core := core', buf := [] } ∧ Emit.Emits c.ser c1.ser [(p, AckHop.ackMsg n now)]) :=
+  AckHop.cli_input_hop now hl he
+
+/-- an acknowledgement delivered to either session raises its event and changes nothing -/
+theorem C02_ack_changes_nothing (v : Srv.State) (c : Cli.State) (now n ts msid : Nat) (h : n < 4294967296) :
+    SrvSteps.stepMsg v now { ts := ts, typ := 3, msid := msid, data := Bytes.be32 n } = .ok (v, [.ev (.ackReceived n)]) ∧
+    CliSteps.stepMsg c now { ts := ts, typ := 3, msid := msid, data := Bytes.be32 n } = .ok (c, [.ev (.ackReceived n)]) :=
+  ⟨AckHop.srv_step_ack v now n ts msid h, AckHop.cli_step_ack c now n ts msid h⟩
+
+/-- a lookup by name gives the same answer in every enumeration order of a map with distinct names -/
+theorem C02_lookup_any_order {l l' : List (Bytes × Val)} (hp : l.Perm l') (hn : (l.map Prod.fst).Nodup) (k : Bytes) :
+    propGet k l' = propGet k l :=
+  Order.propGet_perm hp hn k
+
+/-- the server's handling of `connect` does not depend on the order the client enumerates the command object in -/
+theorem C02_connect_any_order (v : Srv.State) (tid : Nat) (cfg : Cli.Config) (app : Bytes) (props : List (Bytes × Val))
+    (hp : (connectProps cfg app).Perm props) :
+    Srv.cmdConnect v tid (.object props) = Srv.cmdConnect v tid (.object (connectProps cfg app)) :=
+  Order.srv_connect_any_order v tid cfg app props hp
 
 end Rml.C02
